@@ -1,0 +1,116 @@
+//go:build verif
+// +build verif
+
+package tensor
+
+import (
+	"sync"
+	"unsafe"
+
+	"gorgonia.org/tensor/internal/storage"
+)
+
+// This file is only compiled with -tags verif. It gives the verification
+// harness in /verif a way to put the package-level pools into a known state
+// and to observe what is handed to / taken from the ints pool.
+
+// VerifPoolEvent describes something suspicious that happened in the ints pool.
+type VerifPoolEvent struct {
+	Kind string // "double-return"
+	Size int
+	Ptr  uintptr
+}
+
+var verifMu sync.Mutex
+var verifParked = map[uintptr][]int{} // arrays currently parked in intsPool (kept alive, so addresses are never reused)
+var verifEvents []VerifPoolEvent
+var verifTrack bool
+
+// VerifResetPools empties every package-level pool and re-enables pooling.
+func VerifResetPools() {
+	habbo.Lock()
+	usePool = true
+	habbo.Unlock()
+drainDense:
+	for {
+		select {
+		case <-densePool:
+		default:
+			break drainDense
+		}
+	}
+drainBools:
+	for {
+		select {
+		case <-boolsPool:
+		default:
+			break drainBools
+		}
+	}
+drainHdr:
+	for {
+		select {
+		case <-headerPool:
+		default:
+			break drainHdr
+		}
+	}
+	for i := range intsPool {
+		size := i
+		intsPool[i] = sync.Pool{New: func() interface{} { return make([]int, size) }}
+	}
+	optPool = &sync.Pool{New: func() interface{} { return new(OpOpt) }}
+	verifMu.Lock()
+	verifParked = map[uintptr][]int{}
+	verifEvents = nil
+	verifMu.Unlock()
+}
+
+// VerifTrackPools switches ints-pool event tracking on or off.
+func VerifTrackPools(on bool) {
+	verifMu.Lock()
+	verifTrack = on
+	verifMu.Unlock()
+}
+
+// VerifPoolEvents returns and clears the recorded events.
+func VerifPoolEvents() []VerifPoolEvent {
+	verifMu.Lock()
+	ev := verifEvents
+	verifEvents = nil
+	verifMu.Unlock()
+	return ev
+}
+
+// VerifDensePoolLen reports how many *Dense are parked.
+func VerifDensePoolLen() int { return len(densePool) }
+
+func verifIntsReturned(is []int) {
+	if cap(is) == 0 {
+		return
+	}
+	verifMu.Lock()
+	if verifTrack {
+		is = is[:cap(is)]
+		p := uintptr(unsafe.Pointer(&is[0]))
+		if _, ok := verifParked[p]; ok {
+			verifEvents = append(verifEvents, VerifPoolEvent{Kind: "double-return", Size: cap(is), Ptr: p})
+		}
+		verifParked[p] = is
+	}
+	verifMu.Unlock()
+}
+
+func verifIntsBorrowed(is []int) {
+	if cap(is) == 0 {
+		return
+	}
+	verifMu.Lock()
+	if verifTrack {
+		is = is[:cap(is)]
+		delete(verifParked, uintptr(unsafe.Pointer(&is[0])))
+	}
+	verifMu.Unlock()
+}
+
+var _ = storage.Header{}
